@@ -297,17 +297,25 @@ def run_case(w, c):
             except Exception as exc:
                 o['exc'] = type(exc).__name__
             probe = sym if sym not in ('', '#5') else 'QQ%s' % c['id'].split(':')[-1]
+            # anything but "unknown symbol" counts as a trace of the declaration (also an unexpected exception)
             try:
                 Unit(probe)
                 o['registered'] = True
             except ValueError:
                 pass
+            except Exception as exc:
+                o.update(registered=True, probe_exc=type(exc).__name__)
             try:
                 Quantity('1 ' + probe)
                 o['parses'] = True
             except QuantityError:
                 pass
-            o['listed'] = set(u.symbol for u in M.units()) != before
+            except Exception as exc:
+                o.update(parses=True, parse_exc=type(exc).__name__)
+            try:
+                o['listed'] = set(u.symbol for u in M.units()) != before
+            except Exception as exc:
+                o.update(listed=True, list_exc=type(exc).__name__)
             if o['st'] == 'err':
                 try:
                     cur2 = M.new_unit(probe, 'later valid', 2)
